@@ -8,7 +8,7 @@ Traces == JsonDeserialize(IOEnv.TRACE_FILE)
 
 NormF(f) == F(f.s, f.f, f.w, f.sys, f.ack)
 Norm(obs) == [frames |-> [i \in 1..Len(obs.frames) |-> NormF(obs.frames[i])], comm |-> obs.comm, cb |-> obs.cb,
-              dt |-> obs.dt, cm |-> obs.cm]
+              dt |-> obs.dt, cm |-> obs.cm, wfc |-> obs.wfc]
 
 RECURSIVE Run(_, _, _)
 Run(S, steps, l) ==
